@@ -24,7 +24,7 @@ RULE = ("every ordered pair of the 16 public classes plus {int, float, d-vector,
         "returned None/NotImplemented/identity/foreign-element object is a violation; stated pairs must return the stated "
         "class and the reference value. Non-trivial: different classes, or multi-valued, or subclass-related pair.")
 RULE = RULE + probes.RULE_TEXT + (probes.AUG_TEXT if PROPERTY_ID in probes.AUG_PROPS else "")
-ASSUMPTIONS = ["ndarray as LEFT operand is dispatched by NumPy and excluded", "spatial-vector * int is the inherited list repetition: judged as a list operation (own elements repeated), not as arithmetic", "same-class cells whose only meaning is the inherited list concatenation/repetition are reported (label same_class_undocumented), not judged",
+ASSUMPTIONS = ["ndarray as LEFT operand is dispatched by NumPy and excluded", "spatial-vector * int (vector on the left) is the inherited list repetition: judged as a list operation (own elements repeated), not as arithmetic; int * spatial-vector goes through the class's own __rmul__ and must raise", "same-class cells whose only meaning is the inherited list concatenation/repetition are reported (label same_class_undocumented), not judged",
                "documented pairs outside the statement (tier P3) may raise: recorded under label documented_but_raises, not a violation"]
 
 POSES = ["SO2", "SE2", "SO3", "SE3"]
@@ -300,10 +300,10 @@ def check_case(case):
     c.feat(tier=spec[0] if spec else "P1", raised=type(exc).__name__ if exc else None)
     lens_ok = nl == 1 or nr == 1 or nl == nr
     same = lk == rk
-    if spec is None and exc is None and op == "*" and ((lk in SPATIAL and rk == "int") or (lk == "int" and rk in SPATIAL)):
+    if spec is None and exc is None and op == "*" and (lk in SPATIAL and rk == "int"):
         # inherited list repetition (documented nowhere, but not an arithmetic result): reported, and judged only
         # as a list operation - the result must be the operand's own elements repeated
-        obj, k = (left, int(right)) if lk in SPATIAL else (right, int(left))
+        obj, k = left, int(right)       # (int * spatial vector is not exempt: the reflected operator is the class's own and must raise)
         want = [np.asarray(a) for a in obj.data] * k
         good = type(res) is type(obj) and len(res) == len(want) and all(np.array_equal(a, b) for a, b in zip(res.data, want))
         c.true(site + "/repetition", good, "list repetition returned %s" % _describe(res))
